@@ -29,7 +29,7 @@ def cases(seed, tier):
     out = []
     for i in range(n):
         out.append({"gen": ["polyline", "surface", "surface", "volume"][i % 4], "seed": rng.randrange(2 ** 31),
-                    "weights": ["one", "length", "dict", "attr", "dict_int", "dict_zero"][i % 6], "queries": 4 if tier == "quick" else 8})
+                    "weights": ["one", "length", "dict", "attr", "dict_int", "dict_zero", "dict_narrow_int"][i % 7], "queries": 4 if tier == "quick" else 8})
     return out
 
 
@@ -107,6 +107,8 @@ def run_case(desc, ctx):
 
     def wf_custom(a, b):
         r = random.Random((min(a, b) * 1000003 + max(a, b)) ^ salt)
+        if mode == "dict_narrow_int":
+            return float(r.randint(40, 120))
         if mode == "dict_int":
             return float(r.randint(1, 3)) * wunit
         if mode == "dict_zero":
@@ -125,6 +127,11 @@ def run_case(desc, ctx):
             warg = m.edges.create_attribute("custom_w", float, dense=rng.random() < 0.5)
             for i, (a, b) in enumerate(edges):
                 warg[i] = wf(a, b)
+        elif mode == "dict_narrow_int":
+            # non-negative weights held in a narrow numpy integer type (e.g. a dict built from a uint8 cost image): sums along a path exceed the type's range
+            nt = rng.choice([np.uint8, np.int8, np.uint8, np.int16])
+            ctx.cls("weights:dict_of_" + nt.__name__)
+            warg = {i: nt(int(wf(a, b))) for i, (a, b) in enumerate(edges)}
         else:
             warg = {i: wf(a, b) for i, (a, b) in enumerate(edges)}
     adj = {}
@@ -141,7 +148,7 @@ def run_case(desc, ctx):
         same = [v for v in range(n) if comp[v] == comp[start]]
         dref = graphs.dijkstra(n, adj, start)
         hops = graphs.bfs(n, hop, start)
-        kind = ["int", "list", "set", "tuple", "self", "many"][(q + desc["seed"]) % 6]
+        kind = ["int", "list", "set", "tuple", "self", "many", "repeated"][(q + desc["seed"]) % 7]
         if kind == "int":
             tg = [rng.choice(same)]
             arg = tg[0]
@@ -151,6 +158,12 @@ def run_case(desc, ctx):
         elif kind == "many":
             tg = rng.sample(same, min(len(same), 6))
             arg = list(tg)
+        elif kind == "repeated":
+            # a list / tuple of targets naming a vertex more than once
+            tg = rng.sample(same, min(len(same), 3))
+            arg = list(tg) + [tg[0]] + ([tg[-1]] if rng.random() < 0.5 else [])
+            if rng.random() < 0.5:
+                arg = tuple(arg)
         else:
             tg = rng.sample(same, min(len(same), rng.randint(1, 3)))
             arg = {"list": list, "set": set, "tuple": tuple}[kind](tg)
@@ -236,3 +249,14 @@ def run_case(desc, ctx):
                     _check_path(ctx, "border", "to_border", path, start, end, E, wf, dmin, scale)
     if n <= 8:
         ctx.sample({"mesh": cls, "vertices": n, "edges": sorted(E), "weights": mode, "checked": "paths vs reference Dijkstra"})
+
+
+def timeout_verdict(desc, rec):
+    """The per-case watchdog counts CPU time of the worker (virtual time, not wall-clock): these cases are small graphs / short histories that take
+    milliseconds, so a case that has burnt the whole CPU budget (hundreds of times the slowest case ever observed) contains a call that does not
+    terminate - which refutes the property for that input.  A *hang* (no CPU burnt) stays inconclusive."""
+    if rec.get("status") != "timeout":
+        return None
+    return {"monitor": "termination", "op": str(desc.get("gen", "case")), "mechanism": "termination:%s:call_still_running_after_the_cpu_budget" % desc.get("gen", "case"),
+            "what": "a call into the library was still running when the case had used its whole CPU-time budget (%.0f s; such cases take milliseconds)" % CASE_TIMEOUT["quick"],
+            "witness": {"case": desc}}
